@@ -238,6 +238,13 @@ Definition check (gn : list str) (t : list row) : bool := forallb (row_ok gn t) 
 Definition check_program (gn : option (list str)) (t : list row) : bool :=
   match gn with Some gn => check gn t | None => false end.
 
+(* The table's label names and value classes describe what the call sites pass to Emit*.  They are what
+   reaches client_golang only if the wrapper hands names and values on unchanged (extractLabelNames,
+   labelsToMap, as modelled by label_names / labels_to_map above); the translator checks that structurally
+   and reports the result as [identity]. *)
+Definition check_translated (identity : bool) (gn : option (list str)) (t : list row) : bool :=
+  identity && check_program gn t.
+
 (* an emission is an instance of a row: same kind and name, same label names in the same order,
    every value in its row's class, sign as classified *)
 Definition value_in (c : vclass) (v : str) : bool :=
